@@ -274,6 +274,39 @@ def u_read(W, sk):
     SL.check_unchanged(W, "read", snaps)
 
 
+@unit(
+    "index.read_after_copy",
+    props=["C06", "C15"],
+    targets=["flodym.flodym_arrays.FlodymArray.__getitem__", "flodym.flodym_arrays.FlodymArray._sub_array_handler", "flodym.flodym_arrays.FlodymArray.copy", "flodym.flodym_arrays.FlodymArray.split"],
+    skeletons=lambda tier: [{"x": ALPHA[:k], "pat": pat, "form": f} for k in (1, 2, 3) for pat in patterns(k, "NI") if "I" in pat and pat.count("I") <= 2 for f in (("dict_letter", "tuple", "bare") if pat.count("I") == 1 else ("dict_letter", "tuple"))],
+    note="history: read x[key]; y = x.copy(); give y other values; read y[key] and x[key] again -- each read reports the entries of the array it was asked of (nothing remembered from an earlier read of another array)",
+)
+def u_read_after_copy(W, sk):
+    D = mk_dims(W, sk["x"])
+    dims = [D[l] for l in sk["x"]]
+    x = W.array("x", dims)
+    K = Key(W, D, sk["x"], sk["pat"], sk["form"])
+    key = K.key()
+    if sk["form"] in ("bare", "tuple"):
+        amb = []
+        for l, sel in K.sel.items():
+            for l2 in sk["x"]:
+                if l2 != l:
+                    amb.append(W.index_in(D[l2].items, sel[1])[0])
+        ambiguous = core.sor(*amb) if W.symbolic else any(amb)
+        if bool(ambiguous):
+            return  # (ambiguous bare items are refused: index.read)
+    first = W.call(lambda: x[key])
+    W.prove("first_read.returns", first.kind == "return", detail=repr(first))
+    y = x.copy()
+    new = W.ndarray("other", [W.size_of(d) for d in dims])
+    W.call(lambda: y.__setitem__(Ellipsis, new))
+    X, Y = SL.lab(W, x), SL.lab(W, y)
+    check_read_result(W, "read_of_the_copy", W.call(lambda: y[key]), K, Y, y)
+    check_read_result(W, "read_of_the_original_again", W.call(lambda: x[key]), K, X, x)
+
+
+
 def sk_read_errors(tier):
     out = []
     for k in range(1, _rank(tier, 3, 4) + 1):
